@@ -21,6 +21,8 @@ def err_kind(e: BaseException) -> str:
         return 'value_error'
     if isinstance(e, RuntimeError):
         return 'runtime_error'
+    if isinstance(e, AssertionError):
+        return 'internal'
     return 'internal:' + n
 
 
@@ -129,6 +131,9 @@ class RealStore:
             if k == 'get_flight':
                 t = self.ts.get_flight(op['fid'])
                 return 'none' if t is None else self.tag_of(t)
+            if k == 'save':
+                self.ts.save(base_file=self.path)
+                return 'ok'
             return 'bad_op'
         except BaseException as e:  # noqa: BLE001
             if isinstance(e, (KeyboardInterrupt, SystemExit)):
@@ -253,6 +258,12 @@ def gen_history(rng, max_ops: int, indexable: bool | None = None, invalid_rate: 
     while len(ops) < n:
         r = rng.random()
         writable = mode in ('create', 'append')
+        if rng.random() < (0.07 if mem else 0.004):
+            # persist the in-memory store (rarely: the same call on a store that is already file-backed, which is refused)
+            ops.append({'op': 'save'})
+            if mem and n_added > 0:
+                mem = False
+            continue
         if r < (0.42 if writable else 0.04):
             npts = int(rng.choice(NPTS_CHOICES))
             if rng.random() < 0.015:
@@ -332,7 +343,8 @@ def shrink_ops(ops: list[dict], still_fails) -> list[dict]:
 def short_sequences(alphabet: str, k: int, indexable: bool, npts: int = 40, mem: bool = False):
     """All op sequences of length k over a small alphabet, after the prefix `create; add; add`:
        A add (new distinct id, ids in non-sorted order)   L lookup latest id   O lookup oldest id   N lookup absent id
-       S sync   P reopen for append   R reopen for read   G get index 0   H get last index   I iter   E len   C close+reopen append"""
+       S sync   P reopen for append   R reopen for read   G get index 0   H get last index   I iter   E len   C close+reopen append
+       V save the in-memory store to the file"""
     import itertools
 
     out = []
@@ -377,5 +389,7 @@ def short_sequences(alphabet: str, k: int, indexable: bool, npts: int = 40, mem:
                 ops.append({'op': 'len'})
             elif ch == 'C':
                 ops += [{'op': 'close'}, {'op': 'open_append', 'cache_mb': 1}]
+            elif ch == 'V':
+                ops.append({'op': 'save'})
         out.append(ops)
     return out
